@@ -6,7 +6,7 @@ every AL-status poll whether the pending transition stays, is reached, or
 fails.  The observed AL control writes and AL status reads are judged by a
 reference automaton written from the property statement.
 
-Two families:
+Three families:
 
 single  one to_operational call on a fresh Terminal object (start state x
         error flag x target x every terminal behaviour); judged by the
@@ -20,6 +20,16 @@ shared  two and three users of ONE Terminal object at the same time (a
         read inside its life time reported what the statement demands for
         ITS target) and for the terminal as a whole (the AL control writes
         of all walkers together still walk the machine in order).
+bits    the first two families again with terminals whose AL status word
+        (register 0x130, 16 bits) carries further bits next to the state
+        (bits 0..3) and the error indicator (bit 4): bit 5 "device
+        identification loaded" and the reserved / vendor bits 6..15.  The
+        word on the wire is  state | 0x10 if error | extra ; `extra` is one
+        value for the whole history or changes once, after the n-th status
+        read.  The oracle does not know about the extra bits: the judges see
+        state and error flag only (t.al_log), so the AL control writes and
+        the outcome have to be exactly those of the same history with
+        extra = 0.
 """
 import asyncio
 import itertools
@@ -37,7 +47,9 @@ RULE = ("single: start state x error flag x target x every terminal "
         "of ONE Terminal object, each user in {to_operational(PRE-OP), "
         "(SAFE-OP), (OP), get_state}, every combination, later users started "
         "together with the first or after d frames of it (every d up to the "
-        "bound).  non-trivial = at least one AL control write happened; "
+        "bound).  bits: both families with further bits (5..15) in the AL "
+        "status word, constant or changing once after the n-th status read; "
+        "judged on state and error flag alone.  non-trivial = at least one AL control write happened; "
         "distinct = distinct (configuration, behaviour)")
 
 STATES = [1, 2, 4, 8]
@@ -46,6 +58,38 @@ USERS = [2, 4, 8, 0]        # shared family: a target, or 0 = get_state user
 INITIAL_CODE = 0x1b         # AL status code of an error present at the start
 KF_HANG = "C14-shared-walker-waits-for-exact-state"
 MODEL_BOUND = 2
+NO_BITS = (0, 0, 0)         # extra status bits: (a, b, n) = a for the first
+                            # n AL status reads of the history, b afterwards
+
+
+class StatusBitsTerminal(bussim.Terminal):
+    """the bus model's terminal; the AL status word it puts on the wire has
+    `al_extra` or-ed in.  t.al_log keeps state | error flag (what the
+    judges read), t.al_words what went over the wire."""
+
+    def __init__(self, *args, extra=NO_BITS, **kwargs):
+        super().__init__(*args, **kwargs)
+        a, b, n = extra
+        if (a | b) & ~0xffe0 or n < 0:
+            raise core.Internal("extra status bits %r overlap the state or "
+                                "the error indicator" % (extra,))
+        self.al_extra = extra
+        self.al_words = []
+
+    def _al_status(self):
+        v = super()._al_status()
+        a, b, n = self.al_extra
+        w = v | (a if len(self.al_words) < n else b)
+        self.al_words.append(w)
+        return w
+
+
+def check_words(t):
+    """harness self-test: the judges' view is the wire view without the
+    extra bits"""
+    seen = [v for kind, v in t.al_log if kind == "status"]
+    if seen != [w & 0x1f for w in t.al_words] or any(v & ~0x1f for v in seen):
+        raise core.Internal("AL status log and words on the wire disagree")
 
 
 def make_poll(ch, k, max_errors):
@@ -69,11 +113,11 @@ def make_poll(ch, k, max_errors):
     return poll
 
 
-def execute(ch, conf, k, max_errors=1):
+def execute(ch, conf, k, max_errors=1, extra=NO_BITS):
     start, err, target = conf
     loop = vloop.VLoop()
     with loop:
-        t = bussim.Terminal("t", station=1234)
+        t = StatusBitsTerminal("t", station=1234, extra=extra)
         t.al_state = start
         t.al_error = err
         t.al_poll = make_poll(ch, k, max_errors)
@@ -91,8 +135,10 @@ def execute(ch, conf, k, max_errors=1):
         else:
             out = ("return",)
         log = list(t.al_log)
+        check_words(t)
+        words = list(t.al_words)
         loop.shutdown()
-    return dict(log=log, out=out)
+    return dict(log=log, out=out, words=words)
 
 
 def judge(conf, obs):
@@ -158,7 +204,8 @@ def frame_bound(users, k):
     return max(d for _, d in users) + len(users) * (2 + 3 * (k + 2)) + 8
 
 
-def execute_shared(ch, conf, k, max_errors=1, serialise=False):
+def execute_shared(ch, conf, k, max_errors=1, serialise=False,
+                   extra=NO_BITS):
     """users = ((target or 0, delay), ...): user i starts once `delay`
     frames went round (or nothing is in flight any more); delay 0 = together
     with the first.  serialise=True is the defect model of KF_HANG: the
@@ -166,7 +213,7 @@ def execute_shared(ch, conf, k, max_errors=1, serialise=False):
     start, err, users = conf
     loop = vloop.VLoop()
     with loop:
-        t = bussim.Terminal("t", station=1234)
+        t = StatusBitsTerminal("t", station=1234, extra=extra)
         t.al_state = start
         t.al_error = err
         t.al_code = INITIAL_CODE if err else 0
@@ -201,7 +248,7 @@ def execute_shared(ch, conf, k, max_errors=1, serialise=False):
                 if offset == 0x0120:
                     ops[i].append(("ctl", args[-1]))
                 elif offset == 0x0130:
-                    ops[i].append(("status", ret[0]))
+                    ops[i].append(("status", ret[0] & 0x1f))
             return ret
         m.ec.roundtrip = roundtrip
 
@@ -258,9 +305,12 @@ def execute_shared(ch, conf, k, max_errors=1, serialise=False):
             o.update(mark=marks[i], end=ends[i], ops=ops[i])
             out.append(o)
         log = list(t.al_log)
+        check_words(t)
+        words = list(t.al_words)
         pending = t.al_requested
         loop.shutdown()
-    return dict(log=log, users=out, requested=pending, frames=frame_of)
+    return dict(log=log, users=out, requested=pending, frames=frame_of,
+                words=words)
 
 
 def status_codes(conf, log):
@@ -408,16 +458,20 @@ def hang_model(obs, no):
     return total > mine
 
 
-def explore_shared(conf, k, errors, res, serialise=False, bound=99):
+def explore_shared(conf, k, errors, res, serialise=False, bound=99,
+                   extra=NO_BITS):
     found = []
+    key = [conf] if extra == NO_BITS else [conf, extra]
 
     def on_exec(ch, obs):
         if not serialise:
             res.count("evaluations")
             res.count("evaluations_shared")
+            if extra != NO_BITS:
+                res.count("evaluations_status_bits")
             res.count("transitions", len(obs["log"]))
             if any(e[0] == "ctl" for e in obs["log"]):
-                res.nontrivial.add(core.digest([conf, ch.choices]))
+                res.nontrivial.add(core.digest(key + [ch.choices]))
             res.outcomes.add(tuple(
                 (u["out"], len([1 for e in u["ops"] if e[0] == "ctl"]))
                 for u in obs["users"]))
@@ -449,25 +503,26 @@ def explore_shared(conf, k, errors, res, serialise=False, bound=99):
                                                  [list(u) for u in conf[2]]],
                           choices=list(ch.choices), k=k, errors=errors,
                           serialise=serialise, user=no,
+                          extra=list(extra), words=obs["words"][:24],
                           log=obs["log"][:48]),
                 exp=exp, seen=seen, what=what, kf=kf))
-    explore.dfs(lambda ch: execute_shared(ch, conf, k, errors, serialise),
-                bound, on_exec)
+    explore.dfs(lambda ch: execute_shared(ch, conf, k, errors, serialise,
+                                          extra), bound, on_exec)
     return found
 
 
 def work(item, res):
     k = work.k
     if item[0] == "shared":
-        _, conf, k, errors = item
-        found = explore_shared(conf, k, errors, res)
+        _, conf, k, errors, extra = item
+        found = explore_shared(conf, k, errors, res, extra=extra)
         if any(f["kf"] for f in found):
             # the failure must vanish under the one modelled deviation:
             # with the walks one after the other the configuration has to
             # be clean (all behaviours with <= MODEL_BOUND non-default poll
             # answers; the serialised trees are three times the size)
             again = explore_shared(conf, k, errors, res, serialise=True,
-                                   bound=MODEL_BOUND)
+                                   bound=MODEL_BOUND, extra=extra)
             if again:
                 for f in found:
                     f["kf"] = None
@@ -476,29 +531,34 @@ def work(item, res):
             res.violation(f["case"], f["exp"], f["seen"], kf=f["kf"],
                           sig=core.digest([f["what"], f["kf"]]),
                           note=f["what"])
-        a = execute_shared(explore.Chooser((1,)), conf, k)
-        b = execute_shared(explore.Chooser((1,)), conf, k)
+        a = execute_shared(explore.Chooser((1,)), conf, k, extra=extra)
+        b = execute_shared(explore.Chooser((1,)), conf, k, extra=extra)
         if a != b:
             raise core.Internal("non-deterministic execution")
         return
-    conf = item[1]
+    _, conf, extra = item
+    key = [conf] if extra == NO_BITS else [conf, extra]
 
     def on_exec(ch, obs):
         res.count("evaluations")
+        if extra != NO_BITS:
+            res.count("evaluations_status_bits")
         res.count("transitions", len(obs["log"]))
         if any(e[0] == "ctl" for e in obs["log"]):
-            res.nontrivial.add(core.digest([conf, ch.choices]))
+            res.nontrivial.add(core.digest(key + [ch.choices]))
         res.outcomes.add((obs["out"], len([e for e in obs["log"]
                                            if e[0] == "ctl"])))
         v = judge(conf, obs)
         if v is not None:
             exp, seen, what = v
             res.violation(dict(conf=conf, choices=list(ch.choices), k=k,
-                               errors=work.errors, log=obs["log"]), exp, seen,
+                               errors=work.errors, extra=list(extra),
+                               words=obs["words"], log=obs["log"]), exp, seen,
                           sig=core.digest([what]), note=what)
-    explore.dfs(lambda ch: execute(ch, conf, k, work.errors), 99, on_exec)
-    a = execute(explore.Chooser(()), conf, k)
-    b = execute(explore.Chooser(()), conf, k)
+    explore.dfs(lambda ch: execute(ch, conf, k, work.errors, extra), 99,
+                on_exec)
+    a = execute(explore.Chooser(()), conf, k, extra=extra)
+    b = execute(explore.Chooser(()), conf, k, extra=extra)
     if a != b:
         raise core.Internal("non-deterministic execution")
 
@@ -520,22 +580,74 @@ def shared_items(ctx):
             for a, b in itertools.product(USERS, repeat=2):
                 for d in d2:
                     items.append(("shared", (s, e, ((a, 0), (b, d))), k2,
-                                  1 if ctx.quick else 2))
+                                  1 if ctx.quick else 2, NO_BITS))
             for a, b, c in itertools.product(USERS, repeat=3):
                 if not a and not b and not c:
                     continue
                 for db, dc in d3:
                     items.append(("shared",
-                                  (s, e, ((a, 0), (b, db), (c, dc))), k3, 1))
+                                  (s, e, ((a, 0), (b, db), (c, dc))), k3, 1,
+                                  NO_BITS))
+    return items
+
+
+def status_bits(ctx, shared=False):
+    """the extra-bits alphabet: (a, b, n) = the AL status word carries a
+    during the first n status reads of the history and b afterwards.
+    constant: bit 5 (device identification loaded), a reserved bit, the top
+    bit, all of 5..15 (quick); every single bit 5..15, bits 5+6, all of
+    6..15, all of 5..15 (thorough).  changing: between nothing, bit 5 and
+    all of 5..15 in both directions, after the first status read (quick) /
+    after the first .. fourth (thorough).  The shared family takes a subset:
+    bit 5 and all of 5..15, constant, appearing and disappearing."""
+    if shared:
+        const = [0x20] if ctx.quick else [0x20, 0xffe0]
+        pairs = [(0, 0x20)] if ctx.quick else [(0, 0x20), (0x20, 0)]
+        at = [1] if ctx.quick else [1, 2]
+    elif ctx.quick:
+        const = [0x20, 0x40, 0x8000, 0xffe0]
+        pairs = [(0, 0x20), (0x20, 0), (0, 0xffe0), (0xffe0, 0)]
+        at = [1]
+    else:
+        const = [1 << i for i in range(5, 16)] + [0x60, 0xffc0, 0xffe0]
+        pairs = [(a, b) for a in (0, 0x20, 0xffe0) for b in (0, 0x20, 0xffe0)
+                 if a != b]
+        at = [1, 2, 3, 4]
+    if ctx.seed and not shared:
+        # one more combination of the bits 5..15, derived from the seed
+        x = (ctx.seed * 0x9e5) & 0xffe0 or 0x20
+        if x not in const:
+            const.append(x)
+        at.append(5 + ctx.seed % 3)
+    return [(x, x, 0) for x in const] + \
+        [(a, b, n) for a, b in pairs for n in at]
+
+
+def bits_items(ctx):
+    """the families again with further bits in the AL status word.  single:
+    every configuration x every member of status_bits.  shared: two users,
+    every start state x error flag x pair of users, second user started
+    together with the first and after 2 frames (quick) / after 0, 1, 2 and
+    5 frames (thorough); k and the error bound as in the quick tier"""
+    items = [("single", (s, e, t), x) for x in status_bits(ctx)
+             for s in STATES for e in (False, True) for t in TARGETS]
+    for x in status_bits(ctx, shared=True):
+        for s in STATES:
+            for e in (False, True):
+                for a, b in itertools.product(USERS, repeat=2):
+                    for d in ((0, 2) if ctx.quick else (0, 1, 2, 5)):
+                        items.append(("shared", (s, e, ((a, 0), (b, d))),
+                                      2, 1, x))
     return items
 
 
 def run(ctx):
     work.k = 2 if ctx.quick else 5
     work.errors = 1 if ctx.quick else 2
-    items = [("single", (s, e, t)) for s in STATES for e in (False, True)
-             for t in TARGETS]
+    items = [("single", (s, e, t), NO_BITS) for s in STATES
+             for e in (False, True) for t in TARGETS]
     items += shared_items(ctx)
+    items += bits_items(ctx)
     res = core.pmap(ctx, work, items, chunk=1 if len(items) < 100 else 4)
     res.cov["states"] = len(res.nontrivial)
     res.cov["traces_validated_against_impl"] = res.cov.get("evaluations", 0)
@@ -543,12 +655,23 @@ def run(ctx):
     res.cov["k_two_users"], res.cov["k_three_users"] = \
         (2, 1) if ctx.quick else (3, 2)
     res.cov["configurations"] = len(items)
+    res.cov["status_bit_histories"] = len(status_bits(ctx))
+    res.cov["status_bit_histories_shared"] = len(status_bits(ctx, True))
     res.sample(dict(conf=[1, True, 8], behaviour="ack, then PRE-OP after one "
                     "'stay', SAFE-OP at once, error while going to OP"))
     res.sample(dict(family="shared", conf=[1, False, [[2, 0], [8, 1]]],
                     behaviour="one Terminal object, to_operational(PRE-OP) "
                     "and one frame later to_operational(OP)"))
+    res.sample(dict(conf=[8, False, 8], extra=[0, 0x20, 1],
+                    behaviour="OP terminal whose AL status word is 0x08 at "
+                    "the first read and 0x28 (device identification loaded) "
+                    "from then on: nothing to request, returns"))
     res.assumptions += [
+        "bits family: the bits 5..15 of the AL status word are not part of "
+        "the behaviour the statement talks about (state = bits 0..3, "
+        "reported error = bit 4); a terminal may show any of them at any "
+        "time, and the expected AL control writes and outcome are those of "
+        "the same history without them",
         "terminal behaviours: a pending transition stays (<= k polls), is "
         "reached, or fails with the error flag; the terminal never reports "
         "a state that was not requested",
@@ -589,7 +712,9 @@ def replay(ctx, rep):
                 tuple(tuple(u) for u in c["conf"][2]))
         obs = execute_shared(explore.Chooser(tuple(c["choices"])), conf,
                              c["k"], c.get("errors", 1),
-                             c.get("serialise", False))
+                             c.get("serialise", False),
+                             tuple(c.get("extra", NO_BITS)))
+        print("words on the wire", [hex(w) for w in obs["words"]])
         for i, e in enumerate(obs["log"]):
             print("  ", i, e)
         for no, u in enumerate(obs["users"]):
@@ -599,7 +724,8 @@ def replay(ctx, rep):
         return res.violations
     conf = tuple(c["conf"])
     obs = execute(explore.Chooser(tuple(c["choices"])), conf, c["k"],
-                  c.get("errors", 1))
+                  c.get("errors", 1), tuple(c.get("extra", NO_BITS)))
+    print("words on the wire", [hex(w) for w in obs["words"]])
     for e in obs["log"]:
         print("  ", e)
     print("outcome", obs["out"])
